@@ -75,12 +75,12 @@ def variations(cls, target, quick):
             if not data and target == "same":
                 out.append(dict(DEFAULT, cc=False))
             return out
-        one_at_a_time = [{"clear": True, "disk": True}, {"pre": True}]
+        one_at_a_time = [{"pre": True}]
         if not data:
             one_at_a_time.insert(0, {"cc": False})
-        for m, enr in masks[1:]:
-            if target == "same" or (m, enr) == ("part", "notext" if not data else "full"):
-                one_at_a_time.append({"mask": m, "enrich": enr})
+        if target == "same":
+            one_at_a_time.append({"clear": True, "disk": True})
+            one_at_a_time += [{"mask": m, "enrich": enr} for m, enr in masks[1:]]
         return out + [dict(DEFAULT, **v) for v in one_at_a_time]
     out = []
     for pre in (False, True):
@@ -145,9 +145,9 @@ def run(ctx):  # noqa: C901  pylint: disable=too-many-locals,too-many-branches,t
     all_results = [(h, r) for h, r in zip(base, results)] + [(h, r) for h, r in zip(sequences, seq_results)]
     for item, rs in zip(singles, single_results):
         all_results += [(dict(item["base"], edits=[e]), r) for e, r in zip(item["edits"], rs)]
+    pending = []
     for hist, res in all_results:
-        for h, c, w, d in res["viol"]:
-            ctx.violation(c, w, h, d)
+        pending += [(len(h.get("edits") or []), order, h, c, w, d) for order, (h, c, w, d) in enumerate(res["viol"], len(pending))]
         states.add(res["state"])
         n_exec += res["n_exec"]
         ctx.outcomes.add(tuple(res["outcome"]))
@@ -159,6 +159,9 @@ def run(ctx):  # noqa: C901  pylint: disable=too-many-locals,too-many-branches,t
             statuses[s] = statuses.get(s, 0) + 1
         for k, v in res["errors"].items():
             refused.setdefault(f"{hist['cls']}:{k}", v)
+
+    for _n, _o, h, c, w, d in sorted(pending, key=lambda t: (t[0], t[1])):  # shortest history first
+        ctx.violation(c, w, h, d)
 
     # ---- self tests: determinism, forked == plain
     probe = [h for h in base if h["cls"] in ("Curve", "FloatData", "DrillholeGroup") and h["target"] == "other"][:3]
